@@ -19,6 +19,9 @@ MIDSAVE = [
     ('csv', 'csvmaps', dict(ragged=1, maxsize=4, sink='sstream'), 'rows with different number of values (stream)'),
     ('csv', 'csvrows', dict(badutf=1, sink='sstream', enc='utf16le', utf='throw', maxsize=3), 'text that cannot be encoded to UTF-16 under ThrowError'),
     ('csv', 'csvrows', dict(badutf=1, sink='sstream', enc='utf32be', utf='throw', bom=1, maxsize=3), 'text that cannot be encoded to UTF-32 under ThrowError'),
+    ('csv', 'csvrows', dict(sep='bad', sink='sstream', maxsize=3), 'unsupported separator (stream)'),
+    ('csv', 'csvrows', dict(sep='bad', sink='sstream', enc='utf16le', bom=1, maxsize=3), 'unsupported separator (UTF-16 stream with BOM)'),
+    ('csv', 'csvmaps', dict(sep='bad', maxsize=3), 'unsupported separator (memory)'),
     ('msgpack', 'flaky', dict(maxsize=3), 'more fields written than were counted'),
     ('msgpack', 'flaky', dict(maxsize=3, sink='sstream'), 'more fields written than were counted (stream)'),
     ('json', 'v_enum', dict(badenum=1, maxsize=4), 'enum value that is not registered'),
